@@ -319,8 +319,8 @@ func execReactorConc(in string) Result {
 	}
 	// A badly behaved client, many rounds: a fresh seed is inserted and received, then one goroutine
 	// feeds it back while another marks it finished, released together.  Legal outcomes: feedback
-	// accepted and finish accepted (the seed comes out once more and a second finish is refused), or
-	// finish accepted and feedback refused.  Either way the seed is gone and its token is back.
+	// accepted and finish accepted (the seed comes out once more), or finish accepted and feedback
+	// refused.  Either way the seed is gone from the state table and its token is back.
 	raceRounds := 0
 	if !hung && freezeAt == 0 && reactor.VerifAlive() {
 		ta, tb := threads[P+2*K], threads[P+2*K+1]
@@ -370,11 +370,12 @@ func execReactorConc(in string) Result {
 			}
 			_ = fres
 			if !hung && bres == "ROk" {
+				// the accepted feedback brings the seed out once more; the client drops it (no second
+				// finish here: should the table still hold the seed, the quiescent accounting below says so)
 				if !recv() {
 					hung = true
 					break
 				}
-				ta.callNow('F', it, id)
 			}
 			raceRounds++
 		}
